@@ -97,21 +97,31 @@ def audit_sources():
     return bad
 
 
+def prop_modules(prop):
+    """the property's theorem files: Props/<prop>.lean and, where a theorem needs lemmas that themselves build on the
+    first file, Props/<prop>b.lean"""
+    mods = [prop]
+    if os.path.exists(os.path.join(LEAN, "O2oModel", "Props", prop + "b.lean")):
+        mods.append(prop + "b")
+    return mods
+
+
 def theorems_of(prop):
-    """(name, statement) of every theorem in Props/<prop>.lean"""
-    path = os.path.join(LEAN, "O2oModel", "Props", prop + ".lean")
-    src = re.sub(r"/-.*?-/", "", open(path).read(), flags=re.S)
-    src = re.sub(r"--.*", "", src)
+    """(name, statement) of every theorem in the property's theorem files"""
     res = []
-    for m in re.finditer(r"^theorem\s+([A-Za-z0-9_.']+)(.*?)(?::=|\n\s*\|)", src, re.S | re.M):
-        res.append((m.group(1), re.sub(r"\s+", " ", m.group(2)).strip()))
+    for mod in prop_modules(prop):
+        path = os.path.join(LEAN, "O2oModel", "Props", mod + ".lean")
+        src = re.sub(r"/-.*?-/", "", open(path).read(), flags=re.S)
+        src = re.sub(r"--.*", "", src)
+        for m in re.finditer(r"^theorem\s+([A-Za-z0-9_.']+)(.*?)(?::=|\n\s*\|)", src, re.S | re.M):
+            res.append((m.group(1), re.sub(r"\s+", " ", m.group(2)).strip()))
     return res
 
 
 def kernel_check(prop, thorough):
     """build the model + the property module, print axioms. returns dict"""
     res = {"ok": False, "log": "", "theorems": [], "axioms": {}, "failed": []}
-    rc, out = sh(["lake", "build", "O2oModel", f"O2oModel.Props.{prop}", "driver"], cwd=LEAN, timeout=3600)
+    rc, out = sh(["lake", "build", "O2oModel"] + [f"O2oModel.Props.{m}" for m in prop_modules(prop)] + ["driver"], cwd=LEAN, timeout=3600)
     res["log"] = out[-6000:]
     thms = theorems_of(prop)
     res["theorems"] = thms
@@ -126,7 +136,8 @@ def kernel_check(prop, thorough):
     os.makedirs(L.WORK, exist_ok=True)
     aud = os.path.join(L.WORK, f"Audit_{prop}.lean")
     with open(aud, "w") as f:
-        f.write(f"import O2oModel.Props.{prop}\n")
+        for m in prop_modules(prop):
+            f.write(f"import O2oModel.Props.{m}\n")
         for name, _ in thms:
             f.write(f"#print axioms O2o.{name}\n")
     rc, out = sh(["lake", "env", "lean", aud], cwd=LEAN, timeout=1800)
@@ -150,7 +161,7 @@ def kernel_check(prop, thorough):
             bad.append(f"{name}: axioms {res['axioms'][name]}")
     bad += audit_sources()
     if thorough:
-        rc, out = sh(["lake", "env", "leanchecker", f"O2oModel.Props.{prop}"], cwd=LEAN, timeout=3600)
+        rc, out = sh(["lake", "env", "leanchecker"] + [f"O2oModel.Props.{m}" for m in prop_modules(prop)], cwd=LEAN, timeout=3600)
         res["leanchecker_rc"] = rc
         if rc != 0:
             bad.append("leanchecker: " + out[-800:])
